@@ -99,6 +99,44 @@ func (w *world) observeChain() {
 		c.Fail("newhead_notification", key, "new-head notification for block %d %s without a successful store of it (node head is %d)", gotHead.Number, short(gotHead.Hash), height)
 	}
 
+	// I4 for every further subscriber: each one that was subscribed before this commit is told the
+	// same (subscriptions come and go while the node runs; a subscription must not disturb another)
+	for i, es := range w.extraSubs {
+		var got *core.Block
+		select {
+		case got = <-es.sub.Recv():
+		default:
+		}
+		switch {
+		case storedNow != nil && got == nil:
+			c.Fail("newhead_notification", "missing_for_another_subscriber", "block %d %s was stored and announced to the first subscriber, but subscriber #%d (subscribed at step %d, %d subscriptions came and went since) was not told", storedNow.B.Number, short(storedNow.B.Hash), es.id, es.since, w.subEvents-es.eventsAtStart)
+		case storedNow != nil && !got.Hash.Equal(storedNow.B.Hash):
+			c.Fail("newhead_notification", "wrong_block_for_another_subscriber", "block %d %s was stored but subscriber #%d was told block %d %s", storedNow.B.Number, short(storedNow.B.Hash), es.id, got.Number, short(got.Hash))
+		case storedNow == nil && got != nil:
+			c.Fail("newhead_notification", "unexpected_for_another_subscriber", "subscriber #%d was told block %d %s without a successful store", es.id, got.Number, short(got.Hash))
+		}
+		if storedNow != nil && i == 0 {
+			c.Probe("newhead_checked_for_several_subscribers")
+		}
+	}
+	if w.subChurn {
+		switch v := c.T.Draw("subs.churn.op", 6); {
+		case v == 1 && len(w.extraSubs) < 3:
+			w.subSeq++
+			w.subEvents++
+			w.extraSubs = append(w.extraSubs, &extraSub{id: w.subSeq, sub: w.syn.SubscribeNewHeads(), since: w.step, eventsAtStart: w.subEvents})
+			w.logf("env: subscriber #%d subscribes to new heads", w.subSeq)
+		case v == 2 && len(w.extraSubs) > 0:
+			j := c.T.Draw("subs.churn.which", len(w.extraSubs))
+			es := w.extraSubs[j]
+			es.sub.Unsubscribe()
+			w.extraSubs = append(w.extraSubs[:j:j], w.extraSubs[j+1:]...)
+			w.subEvents++
+			w.logf("env: subscriber #%d unsubscribes", es.id)
+			c.Probe("subscriber_left_while_others_stay")
+		}
+	}
+
 	// I5: a reorg notification delimits exactly the run of reverts since the previous store and
 	// comes with (not after) the new head that follows
 	var gotReorg *jsync.ReorgBlockRange
@@ -422,9 +460,18 @@ func (w *world) finish() {
 }
 
 // C06 is one simulated run.
+// extraSub is one more new-head subscriber that comes and goes while the node runs.
+type extraSub struct {
+	id            int
+	sub           jsync.NewHeadSubscription
+	since         int
+	eventsAtStart int
+}
+
 func C06(c *sim.Ctx) {
 	cfg := drawConfig(c, false)
 	w := newWorld(c, cfg)
+	w.subChurn = c.T.Draw("subs.churn", 3) == 2
 	w.logConfig()
 	func() {
 		defer w.shutdown()
